@@ -7,7 +7,7 @@ From Coq Require Import Reals.
 From Coquelicot Require Import Coquelicot.
 From Coq Require Import Sorted Lra.
 From Exmex.Spec Require Import RefSem.
-From Exmex.Proofs Require Import Vars DeepSem DeepSubs C11Main DeepOps NormalForm Hereditary RuleAnalysis RealCarrier CalcSem Dual PartialCorrect PartialMain.
+From Exmex.Proofs Require Import Vars DeepSem DeepSubs C11Main DeepOps NormalForm Hereditary ConvertCompose RuleAnalysis RealCarrier CalcSem Dual PartialCorrect PartialMain FlatPartial.
 Import ListNotations.
 Open Scope nat_scope.
 
@@ -32,7 +32,7 @@ Open Scope nat_scope.
    Not in the theorems: that the implementation is the model (correspondence of this check, on the free term algebra,
    exactly, plus central differences); floating-point rounding; that partial_deepex SUCCEEDS on every expression over
    differentiable operators (an example is computed below; success on generated expressions is observed by the
-   correspondence); flat expressions (they are differentiated through the conversions of C03). *)
+   correspondence). *)
 Theorem C05_rule_names_match_code_partial :
   map (fun r => (fst (fst r), match snd (fst r) with Some _ => true | None => false end, match snd r with Some _ => true | None => false end)) rule_table
   = partial_rule_names.
@@ -137,6 +137,19 @@ Theorem C05_derivatives_qualify :
   built e -> vi < length (dvars e) -> partial_deepex Rc RDC float_table fuel vi e MError = Ok d -> built d.
 Proof. exact partial_built. Qed.
 
+(* FLAT expressions (Differentiate::partial on FlatEx = to_deepex, partial, compile, from_deepex): for every flat expression
+   the conversions accept (flat_ok: what the flat parser builds from any accepted token list, C03) with a sorted variable
+   list, if differentiation succeeds the result has the same variables and evaluates to the derivative of the flat
+   evaluation, wherever the deep form of the expression is in its domain *)
+Theorem C05_flat_partial_is_the_derivative :
+  forall (fx fx' : flatex R) (i : nat) (vals : list R),
+  flat_ok Rc float_table fx -> StronglySorted str_lt (fvars fx) -> flat_partial fx (i :: nil) = Ok fx' -> length vals = length (fvars fx) ->
+  (forall e, to_deepex Rc float_table true fx = Ok e -> in_domain e i (env_of Rc (fvars fx) vals)) ->
+  fvars fx' = fvars fx /\
+  exists v, eval_flat Rc fx' vals = Ok v /\
+    is_derive (fun t => match eval_flat Rc fx (set_nth i t vals) with Ok y => y | _ => 0%R end) (nth i vals 0%R) v.
+Proof. exact flat_partial_is_derivative. Qed.
+
 (* non-vacuity: sin(x).  All premises hold, differentiation succeeds over the real carrier with cos(x), every point is in
    the domain; hence cos(x) evaluates to the derivative of the evaluation of sin(x). *)
 Definition ex_X : str := (120%N :: nil).
@@ -173,3 +186,4 @@ Print Assumptions C05_partial_evaluates_to_the_derivative.
 Print Assumptions C05_parsed_expressions_qualify.
 Print Assumptions C05_consistent_expressions_qualify.
 Print Assumptions C05_derivatives_qualify.
+Print Assumptions C05_flat_partial_is_the_derivative.
